@@ -403,6 +403,8 @@ func runCase(t *rapid.T) {
 	}
 	drawValue := func(s *snap, k []byte) []byte {
 		if old, ok := s.model[string(k)]; ok && rapid.IntRange(0, 2).Draw(t, "same") == 0 {
+			// (one third of the writes to an existing key re-put the unchanged value:
+			// the "value rewritten under a new version" case)
 			return append([]byte{}, old...) // re-put of the unchanged value
 		}
 		return kit.GenValue().Draw(t, "v")
@@ -514,15 +516,7 @@ func runCase(t *rapid.T) {
 	kit.Case(w.descr.String(), mutatedForks >= 2, ls...)
 }
 
-const rule = "a tree of <=8 snapshots of pkg/trie/inmemory tries grown by <=60 generated steps (put incl. re-put of the unchanged value, delete, " +
-	"ClearPrefix, Snapshot of any trie, SetVersion(V1), WriteDirty, on tries that have not been snapshotted yet - a snapshotted trie is frozen, as " +
-	"the cached parent tries of dot/state are); after every step every trie of the tree must have Hash() = Entries()-independent spec root of its " +
-	"own (map, per-key hashed flag) model, Entries() = model, and the same root when recomputed from a cache-free deep copy of its nodes. " +
-	"Non-trivial = at least two snapshots (not the root trie), each forked from a non-empty trie, were effectively mutated after their creation; " +
-	"distinct by the full op list"
-
 func TestC03SnapshotTree(t *testing.T) {
 	defer kit.Flush()
-	kit.Note("rule", rule)
 	rapid.Check(t, runCase)
 }
